@@ -141,6 +141,12 @@ func (c *controller) SetBalancer(l log.Logger, name string, svcRo *v1.Service, _
 	if !reflect.DeepEqual(toWrite, svcRo) {
 		if err := c.client.UpdateStatus(svc); err != nil {
 			level.Error(l).Log("op", "updateServiceStatus", "error", err, "msg", "failed to update service")
+			if syncStateRes == controllers.SyncStateReprocessAll {
+				// The allocation did change and other services may be waiting for
+				// what was released. Reprocessing all the services retries this
+				// one too, while on a plain retry nothing would look released any more.
+				return controllers.SyncStateReprocessAll
+			}
 			return controllers.SyncStateError
 		}
 		level.Info(l).Log("event", "serviceUpdated", "msg", "updated service object")
